@@ -371,6 +371,7 @@ class FitHistMachine(Machine):
         pend_collide = False
         pend_cancel = 0
         tainted = False
+        illposed = False
         for step, op in enumerate(ops[1:], start=1):
             k = op[0]
             if k == "gc":
@@ -429,6 +430,17 @@ class FitHistMachine(Machine):
                     n_fit += 1
                     muts.append(op)
                     res.bump("op_do_fit")
+                    # well-posedness of the fitted problem (as in M-QUERY): an ill-posed fit (uncertainty larger than |value| + 1, not finite,
+                    # not converged) makes every minimizer-derived number unstable; those comparisons are C06/C07's subject, not C03's
+                    try:
+                        _e = np.asarray(main.fit.parameter_errors, dtype=float)
+                        _p = np.asarray(p1, dtype=float)
+                        _free = [i for i, nm in enumerate(main.ref.par_names) if nm not in main.ref.fixed]
+                        illposed = (not main.fit.did_fit) or (not np.all(np.isfinite(_e))) or bool(np.any(_e[_free] <= 0)) or bool(np.any(_e[_free] > np.abs(_p[_free]) + 1.0))
+                    except Exception:
+                        illposed = True
+                    if illposed:
+                        res.bump("fit_ill_posed_minimizer_reads_not_judged")
                     n_mut += 1
                     mut_pending = True
                     self.state(main, res)
@@ -461,6 +473,9 @@ class FitHistMachine(Machine):
             res.bump("op_read")
             pnew = [float(v) for v in main.fit.parameter_values]
             moved = len(pnew) != len(pcur) or not np.allclose(pnew, pcur, rtol=1e-9, atol=1e-12, equal_nan=True)
+            if moved and illposed and name in ("parameter_cov_mat", "parameter_cor_mat", "parameter_errors", "asymmetric_parameter_errors", "result_dict", "report"):
+                moved = False
+                res.bump("read_moved_not_judged_ill_posed_fit")
             if moved and len(pnew) == len(pcur) and name in ("parameter_cov_mat", "parameter_cor_mat", "parameter_errors", "asymmetric_parameter_errors", "result_dict", "report"):
                 # reads that let the minimizer work: "unchanged up to the minimizer tolerance" (C08's tier)
                 try:
@@ -480,7 +495,7 @@ class FitHistMachine(Machine):
             if name in CLASS_B or name == "result_dict":
                 # minimizer-derived results are compared while they are *the results of the last fit*: after a later mutator
                 # kafe2 makes no statement about them (they describe an earlier configuration)
-                last_is_fit = bool(muts) and muts[-1][0] == "do_fit" and not main.spec.get("tiny")  # (badly scaled problems: the optimiser's own convergence is C06's subject)
+                last_is_fit = bool(muts) and muts[-1][0] == "do_fit" and not main.spec.get("tiny") and not illposed  # (badly scaled problems: the optimiser's own convergence is C06's subject)
                 if (last_is_fit and (step + case["seed"]) % 2 == 0) or n_fit == 0:
                     self.check_b(case, world, res, log, new, muts, main, name, got, step, n_fit, tainted)
             else:
